@@ -1612,6 +1612,10 @@ func ruleC17(w *World) {
 				fmt.Sprintf("len(%s) == %d", p1, a.sigLen), fmt.Sprintf("len(%s) == %d", p2, a.sigLen),
 				pk1+"."+T+"#0."+a.flagField+" == false", pk2+"."+T+"#0."+a.flagField+" == false")
 			exp := []string{"&" + pk1 + "." + T + "#0." + a.ptFld, "&" + p1 + "[0]", "&" + pk2 + "." + T + "#0." + a.ptFld, "&" + p2 + "[0]"}
+			if len(c.Call.Args) != len(exp) {
+				w.undecided("C17.R2", key+"/args", c.Pos(), fmt.Sprintf("C.bls_spock_verify is called with %d arguments, the rules know the interface (pk1, proof1, pk2, proof2): the pairing of keys and proofs cannot be followed", len(c.Call.Args)))
+				exp = nil
+			}
 			for i, e := range exp {
 				got := render(c.Call.Args[i])
 				w.check(got == e, "C17.R2", fmt.Sprintf("%s/arg%d", key, i), c.Pos(), "argument is "+e, fmt.Sprintf("argument %d of C.bls_spock_verify is `%s`, expected `%s` (pairs must stay aligned)", i, got, e))
